@@ -194,6 +194,10 @@ func (r *runner) runOn(sc *succ, plan []fault, dir string, n int, sizes []int, g
 		wt = newWrapTrack()
 		tapeRng = rand.New(rand.NewSource(r.rng.Int63()))
 	}
+	// the proxy hook runs on the proxy's goroutine while this goroutine draws payloads: it gets a generator of its own
+	// (math/rand generators are not safe for concurrent use - two concurrent Reads of one generator can return the SAME
+	// bytes, and raw garbage equal to a chunk of a payload looked like clear text on the wire: a false alarm, seed 2)
+	hookRng := rand.New(rand.NewSource(r.rng.Int63()))
 	inner := func(p *linkworld.Proxy, m linkworld.Msg) [][]byte {
 		if m.Dir != dir && m.Idx > 3 {
 			revMu.Lock()
@@ -238,21 +242,21 @@ func (r *runner) runOn(sc *succ, plan []fault, dir string, n int, sizes []int, g
 			d := append([]byte(nil), out[len(out)-1]...)
 			switch f.Op {
 			case "flip-hdr":
-				d[2+r.rng.Intn(10)] ^= 1 << r.rng.Intn(8)
+				d[2+hookRng.Intn(10)] ^= 1 << hookRng.Intn(8)
 				out[len(out)-1] = d
 			case "flip-body":
 				if len(d) > 12+16 {
-					d[12+r.rng.Intn(len(d)-28)] ^= 1 << r.rng.Intn(8)
+					d[12+hookRng.Intn(len(d)-28)] ^= 1 << hookRng.Intn(8)
 				}
 				out[len(out)-1] = d
 			case "flip-mac":
-				d[len(d)-1-r.rng.Intn(16)] ^= 1 << r.rng.Intn(8)
+				d[len(d)-1-hookRng.Intn(16)] ^= 1 << hookRng.Intn(8)
 				out[len(out)-1] = d
 			case "flip-len":
-				d[r.rng.Intn(2)] ^= 1 << r.rng.Intn(8)
+				d[hookRng.Intn(2)] ^= 1 << hookRng.Intn(8)
 				out[len(out)-1] = d
 			case "truncate":
-				cut := 1 + r.rng.Intn(len(d)-3)
+				cut := 1 + hookRng.Intn(len(d)-3)
 				out[len(out)-1] = d[:len(d)-cut]
 			case "dup":
 				out = append(out, append([]byte(nil), d...))
@@ -265,10 +269,10 @@ func (r *runner) runOn(sc *succ, plan []fault, dir string, n int, sizes []int, g
 				out = out[:len(out)-1]
 			case "garbage-framed":
 				g := make([]byte, garbageLen)
-				r.rng.Read(g)
+				hookRng.Read(g)
 				g[0], g[1] = byte(len(g)>>8), byte(len(g))
 				if old != nil {
-					old.forgeSeq(g, data, r.rng) // a made-up frame carries the clear sequence number its maker likes
+					old.forgeSeq(g, data, hookRng) // a made-up frame carries the clear sequence number its maker likes
 				}
 				out = append([][]byte{g}, out...)
 			case "reflect":
@@ -280,8 +284,8 @@ func (r *runner) runOn(sc *succ, plan []fault, dir string, n int, sizes []int, g
 			case "prev-link":
 				out = append([][]byte{append([]byte(nil), prevPick[k]...)}, out...)
 			case "garbage-raw":
-				g := make([]byte, 1+r.rng.Intn(200))
-				r.rng.Read(g)
+				g := make([]byte, 1+hookRng.Intn(200))
+				hookRng.Read(g)
 				out = append([][]byte{g}, out...)
 			}
 		}
